@@ -11,6 +11,7 @@ import (
 	"errors"
 	"fmt"
 	"io"
+	"reflect"
 	"strings"
 	"sync"
 )
@@ -29,20 +30,24 @@ type resultSet struct {
 	errAt   int // Next fails before delivering row errAt (-1: never)
 	errKind int // which error value Next fails with
 	scanBad bool
+	// wire: what the driver hands to database/sql when it transports a column in another Go type than its declared
+	// kind (SQLite-style: BOOLEAN and whole NUMERIC/REAL values as int64); nil = rows as they are
+	wire      [][]driver.Value
+	scanTypes []reflect.Type // per column, what ColumnTypeScanType reports (nil = driver does not say)
 }
 
 type dbState struct {
-	mu        sync.Mutex
-	calls     []recCall
-	idx       int
-	failAt    int
-	exists    bool
-	recording bool
-	rs        *resultSet
-	queryErr  bool
-	cancel    func() // when set, the failing call cancels the context instead of returning a driver error
-	faultKind int    // which error value the failing call returns (see faultErr)
-	cancelKeep bool  // with cancel set: the context is cancelled DURING call failAt, which itself succeeds
+	mu         sync.Mutex
+	calls      []recCall
+	idx        int
+	failAt     int
+	exists     bool
+	recording  bool
+	rs         *resultSet
+	queryErr   bool
+	cancel     func() // when set, the failing call cancels the context instead of returning a driver error
+	faultKind  int    // which error value the failing call returns (see faultErr)
+	cancelKeep bool   // with cancel set: the context is cancelled DURING call failAt, which itself succeeds
 }
 
 var errInjected = errors.New("injected driver fault")
@@ -113,9 +118,13 @@ type recConn struct {
 	inTx bool
 }
 
-func (c *recConn) Prepare(q string) (driver.Stmt, error) { return nil, errors.New("prepare not supported") }
-func (c *recConn) Close() error                          { return nil }
-func (c *recConn) Begin() (driver.Tx, error)             { return c.BeginTx(context.Background(), driver.TxOptions{}) }
+func (c *recConn) Prepare(q string) (driver.Stmt, error) {
+	return nil, errors.New("prepare not supported")
+}
+func (c *recConn) Close() error { return nil }
+func (c *recConn) Begin() (driver.Tx, error) {
+	return c.BeginTx(context.Background(), driver.TxOptions{})
+}
 func (c *recConn) BeginTx(ctx context.Context, _ driver.TxOptions) (driver.Tx, error) {
 	if !c.st.record("B", "", nil) {
 		return nil, c.st.faultErr("B")
@@ -204,11 +213,23 @@ func (r *recRows) Next(dest []driver.Value) error {
 	if r.pos >= len(r.rs.rows) {
 		return io.EOF
 	}
-	copy(dest, r.rs.rows[r.pos])
+	if r.rs.wire != nil {
+		copy(dest, r.rs.wire[r.pos])
+	} else {
+		copy(dest, r.rs.rows[r.pos])
+	}
 	r.pos++
 	return nil
 }
 func (r *recRows) ColumnTypeDatabaseTypeName(i int) string { return r.rs.types[i] }
+
+// ColumnTypeScanType: the Go type the driver transports the column in (database/sql's default, interface{}, when unknown)
+func (r *recRows) ColumnTypeScanType(i int) reflect.Type {
+	if r.rs.scanTypes != nil && i < len(r.rs.scanTypes) && r.rs.scanTypes[i] != nil {
+		return r.rs.scanTypes[i]
+	}
+	return reflect.TypeOf(new(any)).Elem()
+}
 
 // ColumnTypePrecisionScale: drivers such as pq / pgx report NUMERIC(p,s) metadata; here parsed from the declared type
 func (r *recRows) ColumnTypePrecisionScale(i int) (precision, scale int64, ok bool) {
